@@ -22,6 +22,14 @@ N-LOOP   ``acc = []; for x in xs: [t = f(x);] acc.append(g(t))``  ->  ``acc = [g
          assigned once, read once and not used outside the loop.  Preserves behaviour for side-effect
          free element expressions (the package's are: constructors of SymPy objects and pure helpers);
          the accumulator must not be mentioned between its creation and the loop
+N-OVERWRITE ``d = {x: V0 for x in S}; for y in S: [if not c: continue] d[y] = V1``  ->  ``d = {y: V1 if c else V0' for y in S}``
+         ("initialise every key, then overwrite some").  Side conditions: the key is the bare loop variable (so an element
+         decides its own entry and later elements cannot overwrite it with another value; equal elements give equal
+         values because c, V0, V1 are side-effect free expressions of the element); S is a local bound once to a
+         container that can be iterated twice (a display / comprehension / ``set(..)`` / ``sorted(..)`` ... or the result of a
+         function of the same module annotated to return ``set[..]`` / ``list[..]`` / ``tuple[..]`` / ``dict[..]`` / ``frozenset[..]``) and is
+         not mentioned in between; V0 contains no call; c and V1 do not read d; the function has no ``try`` (a handler
+         could observe the half-overwritten mapping) and no nested function captures d.  Key order is that of S in both forms
 N-PROP   inside a class, a read of a PRIVATE property ``self._p`` whose body is a single ``return E`` (E mentioning only
          ``self`` and builtins) is replaced by ``E`` in the other methods of the class (what the read evaluates to; a
          subclass overriding a private property of its base is not considered)
@@ -341,8 +349,83 @@ class _Normalizer(ast.NodeTransformer):
                 return (st.targets[0].slice, st.value)
         return None
 
-    def _fold_loops(self, body: list[ast.stmt]) -> list[ast.stmt]:
+    _CONTAINER_CALLS = {"set", "list", "tuple", "sorted", "frozenset", "dict"}
+
+    def _reiterable(self, name: str) -> bool:
+        """The local is bound exactly once, to a value that can be iterated any number of times."""
+        if self._stores.get(name) != 1 or name in getattr(self, "_params", set()):
+            return False
+        value = getattr(self, "_single_values", {}).get(name)
+        if value is None:
+            return False
+        if isinstance(value, (ast.List, ast.Set, ast.Dict, ast.Tuple, ast.ListComp, ast.SetComp, ast.DictComp)):
+            return True
+        if isinstance(value, ast.Call):
+            f = value.func
+            if isinstance(f, ast.Name) and f.id in self._CONTAINER_CALLS:
+                return True
+            # a module function, or a method called on self / cls: every definition of that name in this module counts
+            callee = f.id if isinstance(f, ast.Name) else f.attr if isinstance(f, ast.Attribute) and isinstance(f.value, ast.Name) and f.value.id in {"self", "cls"} else None
+            if callee is not None and callee not in self._stores and callee not in getattr(self, "_params", set()):
+                return self._container_returning.get(callee, False)
+        return False
+
+    def _fold_overwrites(self, body: list[ast.stmt]) -> list[ast.stmt]:
+        """N-OVERWRITE (see the module docstring)."""
         out = list(body)
+        if getattr(self, "_has_try", True):
+            return out
+        i = 0
+        while i + 1 < len(out):
+            st, loop = out[i], out[i + 1]
+            i += 1
+            tgt = st.targets[0] if isinstance(st, ast.Assign) and len(st.targets) == 1 else st.target if isinstance(st, ast.AnnAssign) else None
+            comp = st.value if isinstance(st, (ast.Assign, ast.AnnAssign)) else None
+            if not (isinstance(tgt, ast.Name) and isinstance(comp, ast.DictComp) and isinstance(loop, ast.For)):
+                continue
+            acc = tgt.id
+            if acc in getattr(self, "_captured", set()) or len(comp.generators) != 1:
+                continue
+            g = comp.generators[0]
+            if g.ifs or g.is_async or not isinstance(g.target, ast.Name) or not isinstance(g.iter, ast.Name) or not isinstance(comp.key, ast.Name) or comp.key.id != g.target.id:
+                continue
+            if any(isinstance(n, ast.Call) for n in ast.walk(comp.value)) or not self._reiterable(g.iter.id):
+                continue
+            if not (isinstance(loop.iter, ast.Name) and loop.iter.id == g.iter.id and isinstance(loop.target, ast.Name)):
+                continue
+            import copy
+
+            res = self._as_comprehension(copy.deepcopy(loop), acc, "dict")
+            if res is None:
+                continue
+            (key, v1), gens = res
+            if len(gens) != 1 or not (isinstance(key, ast.Name) and key.id == loop.target.id):
+                continue
+            pieces = [v1, *gens[0].ifs]
+            if any(isinstance(n, ast.Name) and n.id in {acc, g.iter.id} and isinstance(n.ctx, ast.Store) for p in pieces for n in ast.walk(p)) or any(
+                    isinstance(n, ast.Name) and n.id == acc for p in pieces for n in ast.walk(p)) or not all(_pure_expr(p) for p in pieces):
+                continue
+            y, x = loop.target.id, g.target.id
+
+            class Rename(ast.NodeTransformer):
+                def visit_Name(self, n):  # noqa: N802
+                    return ast.copy_location(ast.Name(id=y, ctx=n.ctx), n) if n.id == x else n
+
+            v0 = Rename().visit(copy.deepcopy(comp.value))
+            if y != x and any(isinstance(n, ast.Name) and n.id == y for n in ast.walk(comp.value)):
+                continue  # the loop variable's name already means something else in V0
+            value = v1
+            if gens[0].ifs:
+                test = gens[0].ifs[0] if len(gens[0].ifs) == 1 else ast.BoolOp(op=ast.And(), values=list(gens[0].ifs))
+                value = ast.IfExp(test=test, body=v1, orelse=v0)
+            merged = ast.DictComp(key=ast.Name(id=y, ctx=ast.Load()), value=value, generators=[ast.comprehension(target=ast.Name(id=y, ctx=ast.Store()), iter=g.iter, ifs=[], is_async=0)])
+            new = ast.copy_location(type(st)(**{**{f: getattr(st, f) for f in st._fields}, "value": ast.copy_location(merged, comp)}), st)
+            ast.fix_missing_locations(new)
+            out[i - 1 : i + 1] = [new]
+        return out
+
+    def _fold_loops(self, body: list[ast.stmt]) -> list[ast.stmt]:
+        out = self._fold_overwrites(list(body))
         i = 0
         while i < len(out):
             st = out[i]
@@ -401,11 +484,35 @@ class _Normalizer(ast.NodeTransformer):
             if isinstance(n, ast.Name) and isinstance(n.ctx, ast.Store):
                 stores[n.id] = stores.get(n.id, 0) + 1
         self._stores = stores
+        self._captured = captured
+        self._has_try = any(isinstance(n, ast.Try) for n in ast.walk(node))
+        a = node.args
+        self._params = {p.arg for p in [*a.posonlyargs, *a.args, *a.kwonlyargs, *([a.vararg] if a.vararg else []), *([a.kwarg] if a.kwarg else [])]}
+        self._single_values = {}
+        for n in ast.walk(node):
+            t = n.targets[0] if isinstance(n, ast.Assign) and len(n.targets) == 1 else n.target if isinstance(n, ast.AnnAssign) and n.value is not None else None
+            if isinstance(t, ast.Name) and stores.get(t.id) == 1:
+                self._single_values[t.id] = n.value
         self._blocks(node, captured)
         return node
 
 
+_CONTAINER_ANNOTATIONS = ("set[", "list[", "tuple[", "dict[", "frozenset[", "Set[", "List[", "Tuple[", "Dict[", "FrozenSet[", "OrderedDict[")
+
+
+def _pure_expr(e: ast.AST) -> bool:
+    """No assignment expression / await / yield, and no call other than constructors and pure helpers (the N-LOOP assumption)."""
+    return not any(isinstance(n, (ast.NamedExpr, ast.Await, ast.Yield, ast.YieldFrom)) for n in ast.walk(e))
+
+
 def normalize(tree: ast.Module) -> ast.Module:
-    tree = _Normalizer().visit(tree)
+    norm = _Normalizer()
+    # name of a function / method of this module -> "every definition of that name is annotated to return a container"
+    norm._container_returning = {}
+    for n in ast.walk(tree):
+        if isinstance(n, (ast.FunctionDef, ast.AsyncFunctionDef)):
+            ok = n.returns is not None and ast.unparse(n.returns).startswith(_CONTAINER_ANNOTATIONS) and not any(isinstance(x, (ast.Yield, ast.YieldFrom)) for x in ast.walk(n))
+            norm._container_returning[n.name] = norm._container_returning.get(n.name, True) and ok
+    tree = norm.visit(tree)
     ast.fix_missing_locations(tree)
     return tree
